@@ -55,6 +55,8 @@ Terminates == <>Done
 EmitCase == (Emit /\ pc = "new") =>
     PrintT(<<"MBT", ToJson([entries |-> Listing(dir)])>>)
 
+Kinds7 == {"good", "goodL", "subdir", "vanish", "empty", "corrupt", "gzip"}
+N4 == 1..4
 N5 == 1..5
 N6 == 1..6
 N8 == 1..8
